@@ -11,7 +11,17 @@ from .common import fitted_model, quiet
 ASSUMPTIONS = ["stand-in C18: design grid and seeds as listed under coverage.bounded; values are random draws"]
 
 
-def check_result(res, features, expected_ids, key, violations, table=None, precision=3):
+def documented_step(spacing):
+    """ages are rounded to the coarsest of the steps 1, 0.1, 0.01, 0.001 that does not exceed the minimal spacing (the finest
+    one when the spacing is below all of them); default spacing: one day = 1/365"""
+    s = 1.0 / 365 if spacing == "absent" else float(spacing)
+    for step in (1.0, 0.1, 0.01, 0.001):
+        if step <= s:
+            return step
+    return 0.001
+
+
+def check_result(res, features, expected_ids, key, violations, table=None, precision=3, step=None):
     df = res.data.to_dataframe()
     ids = list(dict.fromkeys(df["ID"].astype(str)))
     if sorted(ids) != sorted(map(str, expected_ids)):
@@ -24,6 +34,9 @@ def check_result(res, features, expected_ids, key, violations, table=None, preci
         t = g["TIME"].to_numpy()
         if not (np.all(np.diff(t) > 0) and len(set(t)) == len(t)):
             violations.append(dict(key=f"{key}: ages of {i} not unique and increasing", ages=t.tolist()))
+            return
+        if step is not None and not np.allclose(t / step, np.round(t / step), atol=1e-4):
+            violations.append(dict(key=f"{key}: ages of {i} are not rounded to the documented step {step}", ages=t.tolist()[:6]))
             return
         if table is not None:
             want = sorted(set(np.round(table.loc[table["ID"].astype(str) == str(i), "TIME"].astype(float), precision)))
@@ -46,7 +59,7 @@ def standin_simulate_grid(tier, seed):
     models = [fitted_model("logistic", seed=seed, source_dimension=1, obs_models="gaussian-diagonal", dimension=3),
               fitted_model("logistic", seed=seed + 1, source_dimension=0, obs_models="gaussian-scalar", dimension=3)]
     feats = ["f0", "f1", "f2"]
-    grid = list(itertools.product([1, 4], [0.5, 2.0], [0.0, 0.3], ["absent", 0, 0.0005, 0.01, 1]))
+    grid = list(itertools.product([1, 4], [0.5, 2.0], [0.0, 0.3], ["absent", 0, 0.0005, 0.01, 0.1, 1]))
     if tier == "quick":
         grid = grid[::3]
     seeds = [seed, seed + 7] if tier == "quick" else [seed + k for k in range(6)]
@@ -65,7 +78,7 @@ def standin_simulate_grid(tier, seed):
             break
         evals += 1
         distinct.add((n, mean, std, spacing, first, sd))
-        check_result(res, feats, range(n), key, violations)
+        check_result(res, feats, range(n), key, violations, step=documented_step(spacing))
         if len(samples) < 2:
             samples.append(vp)
         if violations:
